@@ -100,6 +100,8 @@ class Types:
                 return T("dict", key=self.ann(m, args[0]), elem=INT)  # Counter[int]
             if k in ("set", "list", "iter"):
                 return T(k, elem=self.ann(m, args[0]))
+            if k == "tuple" and len(args) == 2 and isinstance(args[1], ast.Constant) and args[1].value is Ellipsis:
+                return T("list", elem=self.ann(m, args[0]))  # Tuple[X, ...]: a homogeneous sequence
             if k == "tuple":
                 return T("tuple", items=tuple(self.ann(m, x) for x in args if not (isinstance(x, ast.Constant) and x.value is Ellipsis)))
             c = self.prog.resolve_class_name(m, unparse(a.value))
@@ -196,6 +198,8 @@ class Types:
             return t.elem or UNKNOWN
         if t.kind == "dict":
             return t.key or UNKNOWN
+        if t.kind == "tuple" and t.items and all(x == t.items[0] for x in t.items):
+            return t.items[0]
         return UNKNOWN
 
     # -- expressions --------------------------------------------------------------
@@ -279,6 +283,15 @@ class Types:
         if isinstance(e, ast.GeneratorExp):
             return T("iter", elem=self.expr(f, e.elt, self._comp_env(f, e, env)))
         if isinstance(e, ast.Tuple):
+            if any(isinstance(x, ast.Starred) for x in e.elts):
+                # `(*a, *b)`: a homogeneous snapshot sequence, typed like the list display
+                el = UNKNOWN
+                for x in e.elts:
+                    t = self.elem_of(self.expr(f, x.value, env)) if isinstance(x, ast.Starred) else self.expr(f, x, env)
+                    if t.kind != "unknown":
+                        el = t
+                        break
+                return T("list", elem=el)
             return T("tuple", items=tuple(self.expr(f, x, env) for x in e.elts))
         if isinstance(e, ast.Dict):
             return T("dict", key=UNKNOWN, elem=UNKNOWN)
